@@ -76,6 +76,8 @@ ROLE_UNITS_BY_KIND = {
     "trigger.py::TrigInfo.call_action.do_func_call": ("trigger.py::TrigInfo.call_action", lambda d: isinstance(d, ast.AsyncFunctionDef)),
     "trigger.py::TrigTime.init.user_task_create_factory.user_task_create.func_call":
         ("trigger.py::TrigTime.init.user_task_create_factory.user_task_create", lambda d: isinstance(d, ast.AsyncFunctionDef)),
+    "state.py::State.get.service_call_factory": ("state.py::State.get", lambda d: isinstance(d, ast.FunctionDef) and any(isinstance(x, ast.AsyncFunctionDef) for x in d.body)),
+    "function.py::Function.get.service_call_factory": ("function.py::Function.get", lambda d: isinstance(d, ast.FunctionDef) and any(isinstance(x, ast.AsyncFunctionDef) for x in d.body)),
     "jupyter_kernel.py::Kernel.send.encode": ("jupyter_kernel.py::Kernel.send", lambda d: isinstance(d, ast.FunctionDef) and "json.dumps" in ast.unparse(d)),
     "jupyter_kernel.py::Kernel.receive.decode": ("jupyter_kernel.py::Kernel.receive", lambda d: isinstance(d, ast.FunctionDef) and "json.loads" in ast.unparse(d)),
 }
@@ -222,8 +224,17 @@ class Program:
                 for k in [k for k, v in self.units.items() if v is real]:
                     del self.units[k]
                 self.role_aliases[role_uid] = real.uid
+                nested = [(k, v) for k, v in self.units.items() if v.rel == real.rel and v.qual.startswith(real.qual + ".")]
                 self.units[role_uid] = real
                 real.uid = role_uid
+                # the functions nested in it move with it
+                for k, v in nested:
+                    nk = role_uid + "." + v.qual[len(real.qual) + 1:]
+                    if nk not in self.units:
+                        del self.units[k]
+                        self.units[nk] = v
+                        self.role_aliases[nk] = v.uid
+                        v.uid = nk
 
     def _index(self, rel, tree):
         for node in ast.walk(tree):
